@@ -600,6 +600,11 @@ fn service(w: &mut World, st: &mut St, n: usize, tape: &mut Tape) -> Result<(), 
             break;
         }
     }
+    // frames the device could not hand over (its transmit ring was full) do not wait for the next unrelated event:
+    // a driver polls again as soon as there is room
+    if !w.nodes[n].dev.rx.is_empty() {
+        w.schedule(w.now + 1_000, Ev::App { node: n });
+    }
     let d = w.refresh_deadline(n)?;
     if let Some(at) = d {
         if at <= w.now {
